@@ -335,7 +335,8 @@ def check(ctx: Ctx) -> list[RuleResult]:
     def _is_memo_assign(n: ast.AST) -> bool:
         return isinstance(n, (ast.Assign, ast.AnnAssign)) and n.value is not None and norm(n.targets[0] if isinstance(n, ast.Assign) else n.target) in memo_targets and not (isinstance(n.value, ast.Name) and n.value.id in memo_targets)
 
-    chain = [st for st in own_nodes(ctxf.node) if isinstance(st, ast.If) and codes_of(st.test, "self.code") and not (isinstance(getattr(st, "parent", None), ast.If) and st in getattr(st.parent, "orelse", [])) and any(_is_memo_assign(n) for n in ast.walk(st))]
+    # heads of the code-specific chain: the first `if/elif self.code ...` (an elif of a test that is not about the code is a head)
+    chain = [st for st in own_nodes(ctxf.node) if isinstance(st, ast.If) and codes_of(st.test, "self.code") and not (isinstance(getattr(st, "parent", None), ast.If) and st in getattr(st.parent, "orelse", []) and codes_of(st.parent.test, "self.code")) and any(_is_memo_assign(n) for n in ast.walk(st))]
     if not chain:
         raise AnalysisError("Frame._ctx: the code-specific chain was not found")
     cur: ast.stmt | None = chain[-1]
